@@ -237,6 +237,7 @@ struct Norm<'a> {
     skip_sort: bool,
     subst: Option<(String, String)>,
     strviews: bool,
+    forlist: bool,
     nexton: Option<String>,
     before: Vec<String>,
     pub before_hits: Vec<usize>,
@@ -793,6 +794,28 @@ impl<'a> VisitMut for Norm<'a> {
                 }
             }
         }
+        // N18 (directive option `forlist`): `for P in E B`  ==>  `{ let __it = E; let mut __i: usize = 0; while __i < __it.len() { let P = __it[__i]; __i += 1; B } }`
+        // for loops over a model listing (a Vec standing for an iterator's items); Verus for-loops do not support `continue`
+        if self.forlist {
+            if let Expr::ForLoop(f) = e {
+                if f.label.is_none() {
+                    let pat = &f.pat;
+                    let ex = &f.expr;
+                    let stmts = &f.body.stmts;
+                    let new: Expr = parse_quote!({
+                        let __it = #ex;
+                        let mut __i: usize = 0;
+                        while __i < __it.len() {
+                            let #pat = __it[__i];
+                            __i += 1;
+                            #(#stmts)*
+                        }
+                    });
+                    *e = new;
+                    self.stats.bump("N18.for_over_listing_as_while");
+                }
+            }
+        }
         // loops are numbered in pre-order
         match e {
             Expr::While(w) => self.mark_loop(&mut w.body),
@@ -934,7 +957,7 @@ impl<'a> VisitMut for Norm<'a> {
 /// Returns the number of loops found (pre-order numbering).
 pub fn normalise(block: &mut syn::Block, opts: &BTreeMap<String, String>, stats: &mut Stats, desc: &str, before: &[String]) -> (usize, Vec<usize>) {
     let deref_idents = opts.get("n3").map(|s| s.split(',').map(|x| x.to_string()).collect()).unwrap_or_default();
-    let mut n = Norm { stats, desc, loops: 0, tmp: 0, closure_args: 0, deref_idents, keep_async: false, yieldctx: opts.get("yieldctx").cloned(), opt_map: opts.contains_key("optmap"), dropnote: opts.get("dropnote").cloned(), selfty: opts.get("selfty").cloned(), skip_sort: false, strviews: opts.contains_key("strviews"), nexton: opts.get("nexton").cloned(), before: before.to_vec(), before_hits: vec![0; before.len()], subst: opts.get("subst").and_then(|v| v.split_once(':').map(|(a, b)| (a.to_string(), b.replace('~', "::")))) };
+    let mut n = Norm { stats, desc, loops: 0, tmp: 0, closure_args: 0, deref_idents, keep_async: false, yieldctx: opts.get("yieldctx").cloned(), opt_map: opts.contains_key("optmap"), dropnote: opts.get("dropnote").cloned(), selfty: opts.get("selfty").cloned(), skip_sort: false, strviews: opts.contains_key("strviews"), forlist: opts.contains_key("forlist"), nexton: opts.get("nexton").cloned(), before: before.to_vec(), before_hits: vec![0; before.len()], subst: opts.get("subst").and_then(|v| v.split_once(':').map(|(a, b)| (a.to_string(), b.replace('~', "::")))) };
     n.visit_block_mut(block);
     (n.loops, n.before_hits.clone())
 }
@@ -954,6 +977,30 @@ pub fn from_stmt(block: &mut syn::Block, prefix: &str, desc: &str, stats: &mut S
             block.stmts.drain(0..p);
             for _ in 0..dropped {
                 stats.bump("U7.statements_before_anchor_not_extracted");
+            }
+        }
+        None => die("lost-anchor", &format!("statement starting with `{}` not found in {}", prefix, desc)),
+    }
+}
+
+/// Keep the statements of `block` strictly BEFORE the first one whose token text starts with `prefix`; then append the
+/// statement/expression text `append` (the value the second half of the split takes over as parameters).
+pub fn until_stmt(block: &mut syn::Block, prefix: &str, append: Option<&str>, desc: &str, stats: &mut Stats) {
+    let want: String = prefix.chars().filter(|c| !c.is_whitespace()).collect();
+    let pos = block.stmts.iter().position(|st| {
+        let t: String = st.to_token_stream().to_string().chars().filter(|c| !c.is_whitespace()).collect();
+        t.starts_with(&want)
+    });
+    match pos {
+        Some(p) => {
+            let n = block.stmts.len();
+            block.stmts.truncate(p);
+            for _ in p..n {
+                stats.bump("U7.statements_from_anchor_in_the_other_half");
+            }
+            if let Some(a) = append {
+                let e: syn::Expr = syn::parse_str(a).unwrap_or_else(|_| die("template", &format!("append= is not an expression in {}", desc)));
+                block.stmts.push(Stmt::Expr(e, None));
             }
         }
         None => die("lost-anchor", &format!("statement starting with `{}` not found in {}", prefix, desc)),
